@@ -110,7 +110,8 @@ func c20Small(c *Ctx, feds []*GenPkg) {
 	nAll := 0
 	for _, g := range feds {
 		for _, fn := range c.genFuncs(g) {
-			if fn.Parent() != nil || !strings.HasPrefix(fn.Name(), "entityResolverNameFor") {
+			// the key tests may sit in the function itself or in a function literal of it
+			if !strings.HasPrefix(topFn(fn).Name(), "entityResolverNameFor") {
 				continue
 			}
 			isNilCmp := func(v ssa.Value) bool {
@@ -182,7 +183,7 @@ func c20Small(c *Ctx, feds []*GenPkg) {
 			if at != nil {
 				pos = c.ipos(at)
 			}
-			c.R.Check(okFn, "gen:"+g.Name+"/"+fn.Name()+"/all-null", pos, sprintf("%d key-field comparisons, each decision depends on all that precede it", len(cmps)),
+			c.R.Check(okFn, "gen:"+g.Name+"/"+strings.ReplaceAll(fn.Name(), "$", "·")+"/all-null", pos, sprintf("%d key-field comparisons, each decision depends on all that precede it", len(cmps)),
 				"this all-null decision ignores an earlier key field's comparison: a representation whose last key field is null (but not all of them) is not matched by its resolver, and its element is answered with an error or by another resolver")
 		}
 	}
